@@ -226,6 +226,8 @@ def gen_case(chk, i):
         info.update(kind="soup-eintr", nops=len(ops), eintr=rng.randint(1, 10 ** 6))
         secs = [(1000 + i % 50, ops)]
     info["script"] = make_script(secs, barrier_before_free=info.get("barrier", False))
+    # one program in six runs without a standard input: the first stream gets descriptor 0
+    info["nostdin"] = rng.random() < 1 / 6
     info["autoflush_expected"] = None
     return info
 
@@ -246,6 +248,8 @@ def run_case(i, script=None, info=None):
         env["RTDRV_EINTR"] = str(info["eintr"])
     if info.get("tmpdir"):
         env["OVNI_TMPDIR"] = os.path.join(wd, "tmp")
+    if info.get("nostdin"):
+        env["RTDRV_CLOSE_STDIN"] = "1"
     res = rt.run_script(drv, info["script"], wd, env=env, timeout=120)
     out = {"i": i, "kind": info["kind"], "viol": None, "inconclusive": None,
            "events": 0, "markers": 0, "bytes": 0, "feat": set(), "shortwrites": 0, "aborted_on_fault": 0}
